@@ -52,7 +52,11 @@ var c12Times = []string{"2014-04-26 17:24:37.3186369", "May 8, 2009 5:57:51 PM",
 	"September 17, 2012 10:09am", "2014-04-26", "2014-04", "2014", "2014:3:31", "2014-05-11 08:20:13,787", "3.31.2014", "2014:4:8 22:05", "08.21.71",
 	"2014.03.30", "20140601", "20140722105203", "1332151919", "2006-01-02T15:04:05+0000", "1384216367189", "2009-08-12T22:15:09-07:00",
 	"1384216367111222", "2009-08-12T22:15:09", "1384216367111222333", "2009-08-12T22:15:09Z", "02/Dec/2021:11:55:34 +0800", "02 Dec 2021 12:55:34.000",
-	"171113 14:14:20", "2021/02/27 - 14:14:20", "Tue May 18 06:25:05.176170 2021", "2021-05-27 06:54:14.760 UTC", "not a time", "", "99/99/9999", "12"}
+	"171113 14:14:20", "2021/02/27 - 14:14:20", "Tue May 18 06:25:05.176170 2021", "2021-05-27 06:54:14.760 UTC", "not a time", "", "99/99/9999", "12",
+	// every spelling the built-in layouts admit: negative and zero embedded offsets, hours and days without a leading zero, midnight, year boundaries
+	"02/Dec/2021:11:55:34 -0700", "31/Dec/2021:23:59:59 -1130", "01/Jan/2022:00:00:00 +0000", "02/Dec/2021:1:55:34 +0800", "02 Dec 2021 1:55:34.000", "31 Dec 1999 23:59:59.999",
+	"211202 1:55:34", "000101 00:00:00", "2021/12/02 - 1:55:34", "2021/12/02 - 00:00:00", "Tue Dec 2 1:55:34.000000 2021", "Fri Dec 31 23:59:59.999999 2021",
+	"2021-12-02 1:55:34.000 UTC", "2021-12-02 00:00:00.000 UTC", "1970-01-01 00:00:00.000 UTC", "1969-12-31 23:59:59.000 UTC"}
 
 var c12Docs = []string{"<a id='7'><b>x</b><b>y</b></a>", "<a><b><c>deep</c></b>tail</a>", "<?xml version=\"1.0\"?><r><i k=\"v\">1</i></r>", "<a><b>unclosed", "plain text", ""}
 
